@@ -398,6 +398,115 @@ def report_spec(ctx, bad, data, origin, extra=None):
     ctx.violation(f'property clause "{clause}" fails on the implementation: {detail}', d)
 
 
+def drop_sequence_case(ctx, batch, tt, T, rk, desc, rng):
+    """a random sequence of drop_level calls (valid ones, sometimes ending in a refused one)
+    through the implementation and through Tree.drop_levels; (b): leaf set / ancestors kept"""
+    h = list(tt.hierarchy)
+    n = len(h)
+    bad = []
+    seq = rng.sample(h[:-1], rng.randrange(0, n)) if n > 1 else []
+    tail = rng.random()
+    if tail < 0.15:
+        seq.append(h[-1])                 # the leaf level: refused
+    elif tail < 0.3:
+        seq.append(NO_LEVEL)              # not a level: refused
+    elif tail < 0.4 and seq:
+        seq.append(seq[0])                # already dropped: not a level any more
+    cur, kept, idxs = tt, list(h), []
+    obs = None
+    for lv in seq:
+        idxs.append(kept.index(lv) if lv in kept else len(kept))
+        try:
+            cur = quiet(cur.drop_level, lv)
+        except RuntimeError as e:
+            obs = [1, err_code(e)]
+            break
+        kept.remove(lv)
+        bad += spec_preserved(tt, cur, kept)
+    if obs is None:
+        obs = [0, enc_tree(cur._data, rk)]
+        if seq and enc_tree(quiet(cur.flatten)._data, rk) != enc_tree(quiet(tt.flatten)._data, rk):
+            bad.append(('preserve', 'drops then flatten differs from flatten'))
+    ctx.dist('drop_sequences', f'len{len(idxs)}:{"ok" if obs[0] == 0 else "err%d" % obs[1]}')
+    batch.add(1017, [T, idxs], obs, 'drop_levels', dict(desc, drop_sequence=seq))
+    return bad
+
+
+def backfill_cases(ctx, batch, tt, T, rk, desc, rng, n_cells=3):
+    """TaxonomyTree.backfill_assignments against Tree.backfill: per cell a record holding the
+    assignment at some of the levels (as left by mapping onto a reduced tree), sometimes
+    inconsistent with the tree or naming a node that does not exist (KeyError).
+    (b): a record that holds the leaf and only true ancestors comes back with the leaf's
+    ancestor at every level, present levels untouched, filled levels flagged, runner-ups dropped."""
+    h = list(tt.hierarchy)
+    n = len(h)
+    bad = []
+    leaves = tt.all_leaves
+    if not leaves:
+        return bad
+    good_cells = []
+    for ci in range(n_cells):
+        leaf = rng.choice(leaves)
+        par = tt.parents(h[-1], leaf)
+        truth = {lv: par[lv] for lv in h[:-1]}
+        truth[h[-1]] = leaf
+        mode = rng.choice(['reduced', 'reduced', 'reduced', 'flat', 'no_leaf', 'inconsistent', 'ghost'])
+        if mode == 'flat':
+            present = [h[-1]]
+        elif mode == 'no_leaf':
+            present = [lv for lv in h[:-1] if rng.random() < 0.5]
+        else:
+            present = [lv for lv in h[:-1] if rng.random() < 0.5] + [h[-1]]
+        cell = {'cell_id': f'cell_{ci}'}
+        for lv in present:
+            cell[lv] = {'assignment': truth[lv], 'bootstrapping_probability': 0.25 + 0.5 * rng.random(),
+                        'runner_up_assignment': ['r'], 'runner_up_probability': [0.1], 'directly_assigned': True}
+        consistent = mode in ('reduced', 'flat')
+        if mode == 'inconsistent' and present:
+            lv = rng.choice(present)
+            cell[lv]['assignment'] = rng.choice(tt.nodes_at_level(lv))
+            consistent = cell[lv]['assignment'] == truth[lv]
+        if mode == 'ghost' and present:
+            lv = rng.choice(present)
+            cell[lv]['assignment'] = rng.choice(EXTRA_NAMES)
+        x = [[rk[cell[lv]['assignment']]] if lv in cell else [] for lv in h]
+        before = copy.deepcopy(cell)
+        try:
+            out = tt.backfill_assignments([cell])
+            if out[0] is not cell or len(out) != 1:
+                bad.append(('backfill', 'backfill_assignments did not return the (altered) input list'))
+            obs = [0, [[rk[cell[lv]['assignment']]] if lv in cell else [] for lv in h]]
+            ok = True
+        except KeyError:
+            obs = [1, 6]
+            ok = False
+        ctx.dist('backfill', f'{mode}:{"ok" if ok else "KeyError"}')
+        batch.add(1018, [T, x], obs, 'backfill', dict(desc, backfill_record={k: (v['assignment'] if isinstance(v, dict) else v) for k, v in before.items()}))
+        if not ok:
+            if mode != 'ghost':
+                bad.append(('backfill', f'backfill_assignments raised KeyError on nodes of the tree ({mode})'))
+            continue
+        for lv in h:
+            if lv in before and cell.get(lv) != before[lv]:
+                bad.append(('backfill', f'a level that was present was altered ({lv})'))
+        if consistent and mode != 'no_leaf':
+            good_cells.append((before, copy.deepcopy(cell)))
+            for lv in h:
+                if lv not in cell or cell[lv]['assignment'] != truth[lv]:
+                    bad.append(('backfill', f'level {lv} is not filled with the ancestor of the assigned leaf'))
+                elif lv not in before:
+                    if cell[lv].get('directly_assigned') is not False:
+                        bad.append(('backfill', f'filled level {lv} is not flagged directly_assigned=False'))
+                    if any(k.startswith('runner_up') for k in cell[lv]):
+                        bad.append(('backfill', f'filled level {lv} carries runner-up data'))
+    # all cells in one call give the same as one call per cell
+    if len(good_cells) > 1:
+        together = tt.backfill_assignments([copy.deepcopy(b) for b, _ in good_cells])
+        if together != [a for _, a in good_cells]:
+            bad.append(('backfill', 'backfilling several cells at once differs from one at a time'))
+    return bad
+
+
 def check_tree(ctx, batch, data, origin, rng, full=True):
     """All public operations of TaxonomyTree on `data` against the model, plus the clauses
     of the property on the observed outputs.  Returns the TaxonomyTree or None."""
@@ -523,6 +632,8 @@ def check_tree(ctx, batch, data, origin, rng, full=True):
                     bad.append(('preserve', 'drop then flatten differs from flatten'))
     else:
         bad.append(('closure', 'flatten of an accepted tree raised'))
+    bad += drop_sequence_case(ctx, batch, tt, T, rk, desc, rng)
+    bad += backfill_cases(ctx, batch, tt, T, rk, desc, rng, n_cells=3 if full else 1)
     # ---- serialisation round trips
     try:
         rt = quiet(TaxonomyTree.from_str, tt.to_str())
